@@ -698,6 +698,11 @@ def finish(prop, tier, seed, meta, cases, results, wall, timeout_ms, jobs):
     )
     with open(os.path.join(OUT, "evidence", f"{prop}.json"), "w") as f:
         json.dump(jsonable(ev), f, indent=1)
+    if tier == "thorough":
+        # keep a copy of the last thorough run next to the (quick) file that the next quick run will rewrite
+        os.makedirs(os.path.join(OUT, "evidence", "thorough"), exist_ok=True)
+        with open(os.path.join(OUT, "evidence", "thorough", f"{prop}.json"), "w") as f:
+            json.dump(jsonable(ev), f, indent=1)
     for l in lines:
         print(l)
     status = "HELD" if not viol and not inconc else ("VIOLATED" if viol else "INCONCLUSIVE")
